@@ -401,8 +401,12 @@ def run(ctx):
     exprs = gen_exprs(ctx, keys_for_gen)
     # functors known to one table only are exercised too (run-time contexts and assertz decide)
     for k in diff_keys:
-        if k[1] in (1, 2):
-            exprs.append(("op", k[0], [("n", "1")] * k[1]))
+        if k[1] == 1:
+            exprs += [("op", k[0], [("n", v)]) for v in ("1", "(-7)", "0.5", "(-1.5)", "18446744073709551617")]
+        elif k[1] == 2:
+            exprs += [("op", k[0], [("n", a), ("n", b)]) for a, b in (("1", "2"), ("2", "1"), ("7", "3"), ("(-7)", "2"), ("0.5", "(-1.5)"), ("4.0", "2"))]
+        elif k[1] == 0:
+            exprs.append(("op", k[0], []))
     observed = run_contexts(ctx, exprs)
     nontrivial = set()
     failing = []
@@ -430,7 +434,7 @@ def run(ctx):
         rep = {}
         for s, o, v in (sfail or failing):
             if s[0] == "op" and len(s) > 3:
-                key = "ctx:error-order:" + culprit_of(s)[2] + ("-left" if culprit_of(s[2][0]) else "-right")
+                key = "ctx:error-order:culprit-" + ("left" if culprit_of(s[2][0]) else "right") + "-of-error"
             elif s[0] == "op":
                 key = "ctx:%s/%d" % (s[1], len(s[2]))
                 c = culprit_of(s)
